@@ -12,3 +12,33 @@ Definition kw_interface : bytes := Eval compute in b "interface".
 Definition kw_type : bytes := Eval compute in b "type".
 Definition kw_method : bytes := Eval compute in b "method".
 Definition kw_error : bytes := Eval compute in b "error".
+
+(* JSON member names and varlink names *)
+Definition s_method : bytes := Eval compute in b "method".
+Definition s_parameters : bytes := Eval compute in b "parameters".
+Definition s_more : bytes := Eval compute in b "more".
+Definition s_oneway : bytes := Eval compute in b "oneway".
+Definition s_upgrade : bytes := Eval compute in b "upgrade".
+Definition s_continues : bytes := Eval compute in b "continues".
+Definition s_error : bytes := Eval compute in b "error".
+Definition s_interface : bytes := Eval compute in b "interface".
+Definition s_description : bytes := Eval compute in b "description".
+Definition s_parameter : bytes := Eval compute in b "parameter".
+Definition s_vendor : bytes := Eval compute in b "vendor".
+Definition s_product : bytes := Eval compute in b "product".
+Definition s_version : bytes := Eval compute in b "version".
+Definition s_url : bytes := Eval compute in b "url".
+Definition s_interfaces : bytes := Eval compute in b "interfaces".
+Definition s_address : bytes := Eval compute in b "address".
+Definition org_varlink_service : bytes := Eval compute in b "org.varlink.service".
+Definition err_InterfaceNotFound : bytes := Eval compute in b "org.varlink.service.InterfaceNotFound".
+Definition err_MethodNotFound : bytes := Eval compute in b "org.varlink.service.MethodNotFound".
+Definition err_MethodNotImplemented : bytes := Eval compute in b "org.varlink.service.MethodNotImplemented".
+Definition err_InvalidParameter : bytes := Eval compute in b "org.varlink.service.InvalidParameter".
+Definition m_GetInfo : bytes := Eval compute in b "GetInfo".
+Definition m_GetInterfaceDescription : bytes := Eval compute in b "GetInterfaceDescription".
+Definition s_unix : bytes := Eval compute in b "unix".
+Definition s_tcp : bytes := Eval compute in b "tcp".
+Definition s_varlink : bytes := Eval compute in b "varlink".
+Definition lit_true : bytes := Eval compute in b "true".
+Definition lit_null : bytes := Eval compute in b "null".
